@@ -55,7 +55,9 @@ def comparators(ctx, obs, rule='CMP'):
         obs.check(ok, rule, q, 'a voxel belongs to the searchlight iff its distance is strictly below the radius',
                   f'`{norm(n)}`: the comparison is not `distance < radius`', '', where(prog, f, n))
         e = inl.inline(n.left)
-        eu = any(isinstance(c, ast.Call) and _leaf(c.func) == 'cdist' and any(isinstance(a, ast.Constant) and a.value == 'euclidean' for a in c.args)
+        eu = any(isinstance(c, ast.Call) and _leaf(c.func) == 'cdist' and (
+            any(isinstance(a, ast.Constant) and a.value == 'euclidean' for a in c.args)
+            or any(k.arg == 'metric' and isinstance(k.value, ast.Constant) and k.value.value == 'euclidean' for k in c.keywords))
                  for c in ast.walk(e))
         dflt = any(isinstance(c, ast.Call) and _leaf(c.func) == 'cdist' and len(c.args) == 2 and not c.keywords for c in ast.walk(e))
         obs.check(eu or dflt, rule, q, 'the distance is Euclidean', f'`{ast.unparse(e)[:80]}`', '', where(prog, f, n))
@@ -213,17 +215,31 @@ def siblings(ctx, obs, rule='SIB'):
     out_name = ctor0[0].args[0].id if ctor0 else None
     st = [s for n in sp.body for s in ast.walk(n) if isinstance(s, ast.Assign) and isinstance(s.targets[0], ast.Subscript)
           and norm(s.targets[0].value) == out_name]
-    ok = False
+    con = 'the RDMs of a chunk are stored at the indices of the centres of that chunk'
+    if not st:
+        obs.unk(rule, q, con, 'no indexed store into the result buffer in the chunked arm', where(prog, f, sp))
     for s in st:
         idx = s.targets[0].slice
         first = idx.elts[0] if isinstance(idx, ast.Tuple) else idx
         loops = [l for n in sp.body for l in ast.walk(n) if isinstance(l, ast.For) and any(x is s for x in ast.walk(l))]
-        if loops and isinstance(first, ast.Name) and isinstance(loops[0].target, ast.Name) and first.id == loops[0].target.id:
-            # and the datasets of the chunk were built from the same loop variable
-            inner = [l for l in ast.walk(loops[0]) if isinstance(l, ast.For) and l is not loops[0]]
-            ok = bool(inner) and isinstance(inner[0].iter, ast.Name) and inner[0].iter.id == first.id
-    obs.check(ok, rule, q, 'the RDMs of a chunk are stored at the indices of the centres of that chunk',
-              'chunk results are not stored at RDM[chunk, :] for the chunk they were computed from', '', where(prog, f, sp))
+        if not loops or not isinstance(loops[0].target, ast.Name):
+            obs.unk(rule, q, con, f'`{norm(s)[:60]}` is not inside a loop over chunks', where(prog, f, s))
+            continue
+        lv = loops[0].target.id
+        if not (isinstance(first, ast.Name) and first.id == lv):
+            obs.bad(rule, q, con, f'`{norm(s.targets[0])}` is not indexed by the chunk `{lv}` the RDMs were computed from', where(prog, f, s))
+            continue
+        # the datasets of the chunk are built by iterating the same chunk variable (inner loop or comprehension)
+        inner_iters = [l.iter for l in ast.walk(loops[0]) if isinstance(l, ast.For) and l is not loops[0]] + \
+            [g.iter for c_ in ast.walk(loops[0]) if isinstance(c_, (ast.ListComp, ast.GeneratorExp)) for g in c_.generators]
+        same = any(isinstance(it, ast.Name) and it.id == lv for it in inner_iters)
+        if same:
+            obs.ok(rule, q, con, '', where(prog, f, s))
+        elif inner_iters:
+            obs.bad(rule, q, con, f'the datasets of the chunk are built by iterating `{norm(inner_iters[0])[:40]}`, the result is stored at '
+                    f'`{lv}`', where(prog, f, s))
+        else:
+            obs.unk(rule, q, con, 'construction of the chunk datasets not recognised', where(prog, f, s))
     # the buffer that collects the chunk results holds floats whatever the input data type: an integer buffer truncates the
     # dissimilarities, while the unchunked arm returns calc_rdm's float array
     allocs = [s for n in sp.body for s in ast.walk(n) if isinstance(s, ast.Assign) and isinstance(s.targets[0], ast.Name)
